@@ -16,7 +16,9 @@
 // notifications for customize inputs; whether GB28181 inputs produce pub notifications at all (lal never had
 // them: none or one matching pair is accepted); delivery to HTTP-TS and RTSP subscribers that joined under an
 // earlier input (their PAT/PMT / SDP describe that input) or while the accepted input sends codec-less "plain"
-// probes; content and completeness of the file outputs after their input has left (C16).
+// probes; content and completeness of the file outputs after their input has left (C16); anything about the UDP
+// port of a GB28181 input after its session has ended (the port goes back to a machine-wide range that other lal
+// instances allocate from: the harness never writes to it again).
 package c03
 
 import (
@@ -64,7 +66,7 @@ func genCase(t *rapid.T) Case {
 	var c Case
 	c.Names = rapid.SampledFrom([]int{1, 1, 2}).Draw(t, "names")
 	c.Out = rapid.SampledFrom([]string{"", "flv", "hls", ""}).Draw(t, "out")
-	c.Auth = rapid.IntRange(0, 2).Draw(t, "auth") == 1
+	c.Auth = rapid.IntRange(0, 1).Draw(t, "auth") == 1
 	n := rapid.IntRange(2, 14).Draw(t, "nactions")
 	kinds := []string{"pub-rtmp", "pub-rtmp", "pub-rtmp", "pub-rtsp", "pub-rtp", "pub-customize", "input-leave", "input-leave", "sub", "sub", "sub", "sub-leave", "sub-rejoin", "kick", "kick",
 		"pull-start", "pull-start", "pull-proceed", "pull-proceed", "pull-stop", "refused-sends", "refused-sends", "tick", "tick", "pub-rtp"}
@@ -95,7 +97,7 @@ func genCase(t *rapid.T) Case {
 		case "sub":
 			a.Sub = rapid.SampledFrom([]string{"rtmp", "flv", "ts", "rtsp"}).Draw(t, "subKind")
 			if c.Auth {
-				a.Bad = rapid.IntRange(0, 3).Draw(t, "bad") == 2
+				a.Bad = rapid.IntRange(0, 2).Draw(t, "bad") == 1
 			}
 		case "pub-rtmp", "pub-customize", "pull-start":
 			a.Av = rapid.IntRange(0, 2).Draw(t, "av") != 1
@@ -688,16 +690,9 @@ func (w *world) sendBadOnOldHandle(in *input) {
 		sendBadRtmp(in.rtmpSend(w))
 	case "rtsp":
 		_ = in.rtspVideo(3, idrNal(badPattern))
-	case "ps":
-		// the port may have been handed to a later session by lal's port pool
-		for _, st := range w.streams {
-			if st.in != nil && st.in.kind == "ps" && st.in.port == in.port {
-				return
-			}
-		}
-		_ = in.psSend(3, idrNal(badPattern))
-		_ = in.psSend(13, padNal(13))
 	}
+	// no "ps": once a GB28181 session has ended its UDP port is free for anybody on the machine (lal's port pool of
+	// this or of another process): a datagram to it is not "the old handle" of anything
 }
 
 // left records that the accepted input of st is gone.
@@ -732,14 +727,19 @@ func (w *world) inputLeaves(ai int, a Action, st *streamModel) *pbt.Violation {
 	case "ps":
 		// lal offers no "stop_rtp_pub": a GB28181 input ends by kick_session (or by its timeout)
 		var resp base.ApiCtrlKickSessionResp
-		w.s.Call("CtrlKickSession", func() { resp = w.s.SM.CtrlKickSession(base.ApiCtrlKickSessionReq{StreamName: st.name, SessionId: in.id}) })
+		w.s.Call("CtrlKickSession", func() {
+			resp = w.s.SM.CtrlKickSession(base.ApiCtrlKickSessionReq{StreamName: st.name, SessionId: in.id})
+		})
 		if resp.ErrorCode != base.ErrorCodeSucc {
 			return pbt.V("kick/attached-session-not-found", "%s: kick of the accepted GB28181 input %s answered %d %s", w.who(ai, a), in.id, resp.ErrorCode, resp.Desp)
 		}
 		if !w.pubGone(st, in.id) {
 			return pbt.V("kick/not-disconnected", "%s: the kicked GB28181 input %s is still the publisher of %s", w.who(ai, a), in.id, st.name)
 		}
-		defer w.retire(st, in)
+		if in.udp != nil {
+			_ = in.udp.Close()
+			in.udp = nil
+		}
 	}
 	if in.id != "" {
 		st.staleIDs = append(st.staleIDs, in.id)
@@ -765,7 +765,10 @@ func (w *world) inputKicked(ai int, a Action, st *streamModel) *pbt.Violation {
 		if !w.pubGone(st, in.id) {
 			return pbt.V("kick/not-disconnected", "%s: the kicked GB28181 input %s is still the publisher of %s", w.who(ai, a), in.id, st.name)
 		}
-		defer w.retire(st, in)
+		if in.udp != nil {
+			_ = in.udp.Close()
+			in.udp = nil
+		}
 	}
 	st.staleIDs = append(st.staleIDs, in.id)
 	w.left(st)
